@@ -8,14 +8,19 @@
 EXTENDS LangCommon, Num
 En == INSTANCE Lang_en
 Fr == INSTANCE Lang_fr
+Es == INSTANCE Lang_es
+Pt == INSTANCE Lang_pt
+It == INSTANCE Lang_it
+De == INSTANCE Lang_de
+Nl == INSTANCE Lang_nl
 
-Modelled == {"en", "fr"}
+Modelled == {"en", "fr", "es", "pt", "it", "de", "nl"}
 
-Apply(L, w, b) == CASE L = "en" -> En!Apply(w, b) [] L = "fr" -> Fr!Apply(w, b)
-ApplyDecimal(L, w, b) == CASE L = "en" -> En!ApplyDecimal(w, b) [] L = "fr" -> Fr!ApplyDecimal(w, b)
-IsDecimalSep(L, w) == CASE L = "en" -> En!IsDecimalSep(w) [] L = "fr" -> Fr!IsDecimalSep(w)
-DecimalMarkOf(L) == CASE L = "en" -> En!DecimalMark [] L = "fr" -> Fr!DecimalMark
-ExecGroup(L, ws) == CASE L = "en" -> En!ExecGroup(ws) [] L = "fr" -> Fr!ExecGroup(ws)
+Apply(L, w, b) == CASE L = "en" -> En!Apply(w, b) [] L = "fr" -> Fr!Apply(w, b) [] L = "es" -> Es!Apply(w, b) [] L = "pt" -> Pt!Apply(w, b) [] L = "it" -> It!Apply(w, b) [] L = "de" -> De!Apply(w, b) [] L = "nl" -> Nl!Apply(w, b)
+ApplyDecimal(L, w, b) == CASE L = "en" -> En!ApplyDecimal(w, b) [] L = "fr" -> Fr!ApplyDecimal(w, b) [] L = "es" -> Es!ApplyDecimal(w, b) [] L = "pt" -> Pt!ApplyDecimal(w, b) [] L = "it" -> It!ApplyDecimal(w, b) [] L = "de" -> De!ApplyDecimal(w, b) [] L = "nl" -> Nl!ApplyDecimal(w, b)
+IsDecimalSep(L, w) == CASE L = "en" -> En!IsDecimalSep(w) [] L = "fr" -> Fr!IsDecimalSep(w) [] L = "es" -> Es!IsDecimalSep(w) [] L = "pt" -> Pt!IsDecimalSep(w) [] L = "it" -> It!IsDecimalSep(w) [] L = "de" -> De!IsDecimalSep(w) [] L = "nl" -> Nl!IsDecimalSep(w)
+DecimalMarkOf(L) == CASE L = "en" -> En!DecimalMark [] L = "fr" -> Fr!DecimalMark [] L = "es" -> Es!DecimalMark [] L = "pt" -> Pt!DecimalMark [] L = "it" -> It!DecimalMark [] L = "de" -> De!DecimalMark [] L = "nl" -> Nl!DecimalMark
+ExecGroup(L, ws) == CASE L = "en" -> En!ExecGroup(ws) [] L = "fr" -> Fr!ExecGroup(ws) [] L = "es" -> Es!ExecGroup(ws) [] L = "pt" -> Pt!ExecGroup(ws) [] L = "it" -> It!ExecGroup(ws) [] L = "de" -> De!ExecGroup(ws) [] L = "nl" -> Nl!ExecGroup(ws)
 Annotate(L, toks) == CASE L = "en" -> En!Annotate(toks) [] L = "fr" -> Fr!Annotate(toks) [] OTHER -> {}
 
 \* format_and_value / format_decimal_and_value: text and value (as a decimal string with "." mark)
